@@ -141,6 +141,22 @@ pub struct TopicCleanTracker {
     persist_tx: mpsc::Sender<String>,
 }
 
+impl Drop for TopicCleanTracker {
+    fn drop(&mut self) {
+        // The persister thread writes markers asynchronously and simply exits once the tracker
+        // is gone, so a change made shortly before shutdown was never written and the next
+        // run reported the old state. Flush the current markers synchronously.
+        let snapshot: Vec<(String, CleanMarkerRecord)> = match self.states.read() {
+            Ok(guard) => guard
+                .iter()
+                .map(|(topic, state)| (topic.clone(), state.snapshot()))
+                .collect(),
+            Err(_) => Vec::new(),
+        };
+        let _ = self.store.persist_updates(&snapshot);
+    }
+}
+
 impl TopicCleanTracker {
     pub fn new(store: Arc<CleanMarkerStore>) -> Arc<Self> {
         let (tx, rx) = mpsc::channel::<String>();
